@@ -1,7 +1,7 @@
 #!/bin/sh
 # usage: confirm_mutant.sh <name e.g. C04_1>   -- confirm a seeded change in a scratch worktree and store it under /verif/seeded/
 # checks: patch applies; suite passes with it (default + async features); demo passes without it and fails with it
-n="$1"; pid=$(echo "$n" | cut -d_ -f1)
+n="$1"; pid=$(python3 -c "import json,sys; print(json.load(open(\"/tmp/mut_$n.json\")).get(\"property\",\"$n\").split()[0].strip(\",\"))" 2>/dev/null || echo "$n" | cut -d_ -f1)
 wt=/tmp/cm_$n; out=/verif/seeded/$n; log=/tmp/cm_$n.log
 rm -rf "$wt"; git -C /repo worktree add -q --detach "$wt" HEAD || exit 2
 mkdir -p "$wt/tests"; cp /tmp/mut_${n}_demo.rs "$wt/tests/demo_${n}.rs"
